@@ -3,7 +3,7 @@
    N / Z / positive stay Coq datatypes; no Extract Constant. *)
 From Coq Require Extraction.
 From Coq Require Import ExtrOcamlBasic.
-From CandidV Require Import Consts model.Base model.Hash model.Leb model.Principal model.Ty model.Gfp model.Sub model.Memo model.Val model.Wire model.Coerce model.De model.Annot model.Text model.Check model.Analysis model.Escape model.Actions.
+From CandidV Require Import Consts model.Base model.Hash model.Leb model.Principal model.Ty model.Gfp model.Sub model.Memo model.Val model.Wire model.Coerce model.De model.Annot model.TypeSer model.Text model.Check model.Analysis model.Escape model.Actions.
 Extraction Language OCaml.
 Set Extraction Optimize.
 Extraction "model.ml"
@@ -19,6 +19,6 @@ Extraction "model.ml"
   Memo.query Memo.history Memo.plan_sub Memo.plan_eq Memo.sub_history Memo.eq_history
   Val.has_type Wire.enc_val Wire.dec_val Wire.dec_header Wire.table_name Coerce.coerce Coerce.spec_decode Coerce.spec_decode_untyped Coerce.spec_decode_untyped_raw Coerce.decode_fuel
   De.de_message De.de_message_untyped De.de
-  Annot.annotate_top Annot.annotate_args Annot.vsize
+  Annot.annotate_top Annot.annotate_args Annot.vsize TypeSer.enc_message TypeSer.enc_header
   Text.pp_text Text.ident_string Text.pp_blob Text.lex_string Text.pp_num_str Text.strip_underscores Text.utf8 Text.is_scalar Val.utf8_valid
   Check.check_prog Analysis.chase_actor Analysis.infer_rec Analysis.js_ident Escape.esc_doc Escape.esc_ok Actions.record_ids.
